@@ -7,6 +7,7 @@ package ugo
 import (
 	"fmt"
 	"io"
+	"math"
 	"reflect"
 
 	"github.com/ozanh/ugo/internal"
@@ -477,8 +478,15 @@ func (c *Compiler) addConstant(obj Object) (index int) {
 		}
 	}()
 
-	switch obj.(type) {
+	switch v := obj.(type) {
 	case Int, Uint, String, Bool, Float, Char, *UndefinedType:
+		if f, ok := v.(Float); ok && f == 0 && math.Signbit(float64(f)) {
+			// negative zero is equal to positive zero as a map key, do not
+			// cache it not to replace one with the other.
+			index = len(c.constants)
+			c.constants = append(c.constants, obj)
+			return
+		}
 		i, ok := c.constsCache[obj]
 		if ok {
 			index = i
